@@ -19,6 +19,7 @@ EXPLANATION = (
   " (STATE-alias / STATE-global) no function of the anchored modules mutates a module- or class-level container, rebinds module / class state or mutates a mutable default argument, so a result never depends on earlier calls;"
   ' (RAISE-interval) a cue is created only for an interval that is not empty at millisecond resolution: the test compares the rounded end and begin, so an interval that rounds to distinct time codes is kept and one that does not is skipped;'
   ' (FRESH) the merging filters construct the container they push once per region, never one object shared by all regions;'
+  " (PAIR-default-end) where the merging filters are not applied unconditionally the writer's finish() gives the default end to every cue that has none, not to the last list entry only;"
 )
 RULE_TEXT = ("one rule instance per (function, live loop), per (flattener, element kind), per writer for SEQ-end / FIN-default; "
              "distinct = distinct (rule, construct) pairs")
@@ -137,7 +138,7 @@ def check_finish(ctx):
     f = ix.func(q)
     ctx.unit(f.module)
     set_ends = [n for n in own_nodes(f.node) if isinstance(n, ast.Call) and isinstance(n.func, ast.Attribute) and n.func.attr == "set_end"]
-    pops = [n for n in own_nodes(f.node) if isinstance(n, ast.Call) and isinstance(n.func, ast.Attribute) and n.func.attr == "pop"]
+    pops = [n for n in own_nodes(f.node) if isinstance(n, ast.Call) and isinstance(n.func, ast.Attribute) and n.func.attr in ("pop", "remove")]
     key = f"{q}|default-end"
     if len(set_ends) != 1:
       raise AnalysisError(f"{q}: expected exactly one set_end call, found {len(set_ends)}")
@@ -191,4 +192,6 @@ def run(ctx):
   for prod, ref in (("ttconv.srt.writer:SrtContext.add_isd", "ttconv.srt.paragraph:SrtParagraph.to_string"), ("ttconv.vtt.writer:VttContext.add_isd", "ttconv.vtt.cue:VttCue.to_string")):
     shape.check_interval_resolution(ctx, ctx.ix.func(prod), ctx.ix.func(ref))
   shape.check_fresh_per_iteration(ctx, common.funcs(ctx, common.ISD_FILTERS))
+  for q_ in ("ttconv.srt.writer:SrtContext", "ttconv.vtt.writer:VttContext"):
+    shape.check_default_end(ctx, ctx.ix.cls(q_))
   common.check_history_independence(ctx, common.WRITERS + common.ISD_FILTERS + ["ttconv.isd"])
